@@ -254,6 +254,15 @@ def boom(ctx, dist, nontriv, per_cfg):
         return
     argfaults(ctx, b, dist, nontriv, per_cfg)
     elemfaults(ctx, b, dist, nontriv, per_cfg)
+    # the worker_limit flavours of the list marshaler (semaphore slot per element goroutine) are a different template arm
+    for wl in ("wl1", "wl2"):
+        try:
+            bw = gensrv.build_server(ctx, "execboom", wl)
+        except RuntimeError as e:
+            ctx.violation({"kind": "generated-server-does-not-build", "config": "execboom:" + wl, "detail": str(e)[-3000:],
+                           "shape": {"config": "execboom:" + wl, "build": "fail"}})
+            continue
+        elemfaults(ctx, bw, dist, nontriv, per_cfg, cfg="execboom:" + wl)
     rounds = 18 if ctx.tier == "quick" else 120
     plan0 = {"seed": ctx.seed, "rates": {}}
     sites = [
@@ -417,11 +426,11 @@ def argfaults(ctx, b, dist, nontriv, per_cfg):
     per_cfg["execboom:base/argument-unmarshal"] = {"cases": len(meta), "as_stated": okc}
 
 
-def elemfaults(ctx, b, dist, nontriv, per_cfg):
+def elemfaults(ctx, b, dist, nontriv, per_cfg, cfg="execboom:base"):
     """a panic that escapes the marshal function of ONE element of a list whose elements are marshalled on
     goroutines (a bound enum's Marshal function): that list fails - null, one error at the element's path, the
     recover hook once - whatever the schedule; the other positions keep their values"""
-    reps = 6 if ctx.tier == "quick" else 40
+    reps = (6 if ctx.tier == "quick" else 40) if cfg == "execboom:base" else (4 if ctx.tier == "quick" else 20)
     cases = []
     meta = []
     for n, k in ((2, 0), (2, 1), (4, 1), (4, 3), (7, 2)):
@@ -431,12 +440,14 @@ def elemfaults(ctx, b, dist, nontriv, per_cfg):
                 ov["t/%s/%d#elem" % (fld, j)] = {"kind": "value", "str": "GRUMPY" if j == k else "SAD"}
             for rep in range(reps):
                 cid = "elem-panic-%s-%d-of-%d-%d" % (fld, k, n, rep)
-                cases.append({"id": cid, "transport": "post", "query": "{ ok t { s %s } }" % fld,
+                cases.append({"id": cid, "transport": "post", "query": "{ ok t { s %s } }" % fld, "timeoutMs": 4000,
+                              # every other repetition runs with a slow recover hook: the list must wait for it
+                              "recoverDelayUs": 3000 if rep % 2 else 0,
                               "plan": {"seed": ctx.seed + rep, "rates": {"delay": 600, "maxDelay": 200}, "overrides": ov}})
                 meta.append((cid, fld, n, k))
     rc, so, se = vf.sh([b, "-mode", "http"], inp="\n".join(json.dumps(c) for c in cases) + "\n", timeout=900)
     if rc != 0:
-        ctx.violation({"kind": "crash", "config": "execboom:base", "where": "list element marshal panic", "stderr": se[-4000:],
+        ctx.violation({"kind": "crash", "config": cfg, "where": "list element marshal panic", "stderr": se[-4000:],
                        "shape": {"crash": True, "where": "element-marshal"}, "cases": cases[:2]})
         return
     res = [json.loads(l) for l in so.split("\n") if l]
@@ -463,11 +474,11 @@ def elemfaults(ctx, b, dist, nontriv, per_cfg):
         dist["element-marshal-panic"] += 1
         nontriv.add(cid)
         if bad:
-            ctx.violation({"kind": "element-marshal-panic", "what": bad, "config": "execboom:base", "case": c, "result": r,
+            ctx.violation({"kind": "element-marshal-panic", "what": bad, "config": cfg, "case": c, "result": r,
                            "shape": {"kind": "element-marshal-panic", "what": bad.split(":")[0][:40]},
-                           "replay": "echo '<case json>' | <generated server execboom:base> -mode http   (schedule-dependent: repeat)"})
+                           "replay": "echo '<case json>' | <generated server " + cfg + "> -mode http   (schedule-dependent: repeat)"})
             if len([1 for v in ctx.violations]) > 12:
                 break
         else:
             okc += 1
-    per_cfg["execboom:base/element-marshal-panic"] = {"cases": len(cases), "as_stated": okc}
+    per_cfg[cfg + "/element-marshal-panic"] = {"cases": len(cases), "as_stated": okc}
